@@ -186,6 +186,11 @@ def run_all(tier, seed):
                     else:
                         h1 = M.PH1(a=r.randint(-9, 9), arr=[3.0], _buffer=b)
                         objs.append(M.PH2(h=h1, rr=r.choice([h1, None]), queue=r.randint(-9, 9), _buffer=b))
+                        if objs[-1].rr is h1 and r.random() < 0.6:
+                            # plain Python attributes (not buffer data): the referent knows its holder - a cycle on the Python side
+                            h1.owner = objs[-1]
+                            objs[-1].note = "holder"
+                            tags["python-side-cycle"] += 1
             except Exception as ex:
                 fail("construction-raises", f"{type(ex).__name__}: {str(ex)[:200]}", c0)
                 continue
